@@ -433,7 +433,7 @@ package grpctunnel
 //@   at call halfClose#1
 //@     assert[C07] @cause arg1 == err
 //@   at call Lock#1
-//@     assert[C03,C04,C05,C06,C07,C15] @cancelbeforelock cancelCalled(st.cancel)
+//@     assert[C03,C04,C05,C06,C07,C09,C15] @cancelbeforelock cancelCalled(st.cancel)
 //@   at go#1
 //@     assert[C13] @notclosed !st.closed
 //@     assert[C02] @status    stat == statusOf(err)
@@ -843,6 +843,8 @@ package grpctunnel
 //@ func (*tunnelChannel).close
 //@   at call tearDown#1
 //@     assert[C12] @beforefinished !held(c.mu)
+//@     assert[C12,C14] @self arg0 == c
+//@   ensures[C12,C14] @deregistered c.tearDown != nil ==> count("call:tearDown") == 1
 //@   loop 1 invariant[C04] @cancelled forall k int64 :: visited(k) ==> cancelCalled(c.streams[k].cancel)
 //@   loop 1 invariant[C04] @pending   c.finished && c.err != nil && c.streams == old(c.streams) && !old(c.finished) && c.err == ite(old(err) == nil, io.EOF, old(err))
 //@   ensures[C04]     @first    !old(c.finished) ==> result && c.finished && c.streams == nil && cancelCalled(c.cancel) && c.err == ite(old(err) == nil, io.EOF, old(err))
@@ -863,7 +865,7 @@ package grpctunnel
 //@   locks c.mu
 //@   assigns nothing
 //@   ensures[C04] @clean  old(c.err) == io.EOF ==> result == nil
-//@   ensures[C04] @cause  old(c.err) != nil && old(c.err) != io.EOF ==> result == old(c.err)
+//@   ensures[C04,C11] @cause  old(c.err) != nil && old(c.err) != io.EOF ==> result == old(c.err)
 //@   ensures[C04] @open   old(c.err) == nil ==> count("call:Err") == 0
 //@   nopanic[C09]
 
@@ -894,7 +896,12 @@ package grpctunnel
 //@   effects nosend, nowait
 //@   nopanic[C09]
 
+// A stream is cancelled only for a genuine error: recording nil or io.EOF here
+// would tell the caller that an RPC that was cut short ended normally.
 //@ func (*tunnelClientStream).cancelStream
+//@   requires[C01,C04,C07] @realerr err != nil && err != io.EOF
+//@   at call finishStream#1
+//@     assert[C01,C04,C07] @cause arg1 == err && arg2 == nil
 //@   at call cancel#1
 //@     assert[C07] @token count("call:finishStream") == 1
 //@   at go#1
@@ -1025,8 +1032,9 @@ package grpctunnel
 //@   at call readMsgLocked#2
 //@     assert[C16] @lookahead e1 == nil && !st.isServerStream
 //@   ensures[C01,C16] @first     err == nil ==> e1 == nil && sameSlice(data, d1)
-//@   ensures[C02,C16] @single    err == nil && !st.isServerStream ==> count("call:readMsgLocked") == 2 && e2 == io.EOF && ok2
-//@   ensures[C02,C04] @laterstatus !st.isServerStream && e1 == nil && e2 != nil && e2 != io.EOF ==> err == e2 && ok == ok2 && data == nil
+//@   ensures[C02,C07,C16] @single    err == nil && !st.isServerStream ==> count("call:readMsgLocked") == 2 && e2 == io.EOF && ok2
+//@   ensures[C01,C09,C16] @protoerr  !ok ==> err != nil && isStatus(err, codes.Internal)
+//@   ensures[C02,C04,C07] @laterstatus !st.isServerStream && e1 == nil && e2 != nil && e2 != io.EOF ==> err == e2 && ok == ok2 && data == nil
 //@   ensures[C16]     @second    !st.isServerStream && e1 == nil && e2 == nil ==> isStatus(err, codes.Internal) && !ok && data == nil && st.readErr == err
 //@   ensures[C16]     @streaming st.isServerStream ==> count("call:readMsgLocked") == 1
 //@   ensures[C01]     @errnodata err != nil ==> data == nil
